@@ -380,6 +380,9 @@ def main(argv):
     ap.add_argument("--replay")
     a = ap.parse_args(argv)
     seed = int(os.environ.get("VERIF_SEED", "0"))
+    if a.tier == "thorough":
+        os.environ.setdefault("PYVC_Z3_MS", "40000")       # read by pyvc.vc at import (first import happens below)
+        os.environ.setdefault("PYVC_CVC5_MS", "20000")
     try:
         rc = check_property(a.prop, a.tier, seed, a.replay)
     except Exception:
